@@ -2,7 +2,7 @@ package cli
 
 import (
 	"github.com/Vedant9500/WTF/internal/database"
-	"github.com/spf13/pflag"
+	"github.com/spf13/cobra"
 )
 
 // ---- C08 (kernel) / C09 (notebook): the read-modify-write of the personal notebook ----
@@ -134,12 +134,11 @@ func VerifHarness_C09_Notebook() {
 // ---- the sub-command handlers themselves (cobra dispatch and flag parsing stay outside: the
 // handler is called directly, flags are set through the flag set) ----
 
-func c08Flags(cmd interface {
-	Flags() *pflag.FlagSet
-}, defs map[string]bool) *pflag.FlagSet {
+// c08Flags returns a setter for cmd's flags (registering them first when package init, which
+// does that in the real program, has not been executed: the symbolic run)
+func c08Flags(cmd *cobra.Command, defs map[string]bool) func(name, val string) {
 	fl := cmd.Flags()
 	if fl.Lookup("keywords") == nil {
-		// package init (which registers the flags) is not executed symbolically
 		fl.StringSliceP("keywords", "k", nil, "")
 		fl.StringP("category", "c", "", "")
 		fl.StringSliceP("platforms", "p", nil, "")
@@ -150,7 +149,7 @@ func c08Flags(cmd interface {
 			fl.Bool("pipeline", false, "")
 		}
 	}
-	return fl
+	return func(name, val string) { _ = fl.Set(name, val) }
 }
 
 func c08HandlerCheck(stored database.Command, command, desc string, pipeline bool, withCategory bool) {
@@ -169,15 +168,15 @@ func c08HandlerCheck(stored database.Command, command, desc string, pipeline boo
 // `wtf save-pipeline <name> <command>`: with and without a `|` in the command
 func VerifHarness_C08_SavePipelineHandler() {
 	path := verifFSHome() + "/.config/cmd-finder/personal.yml"
-	fl := c08Flags(savePipelineCmd, map[string]bool{"description": true})
+	set := c08Flags(savePipelineCmd, map[string]bool{"description": true})
 	withCategory := verifBool("category")
 	if withCategory {
-		_ = fl.Set("category", "mine")
+		set("category", "mine")
 	}
 	desc := ""
 	if verifBool("description") {
 		desc = "my words"
-		_ = fl.Set("description", desc)
+		set("description", desc)
 	}
 	command := []string{"sort", "cat f | wc -l", "grep x f | sort | head"}[verifIntRange("command", 0, 2)]
 	savePipelineCmd.Run(savePipelineCmd, []string{"nm", command})
@@ -196,16 +195,16 @@ func VerifHarness_C08_SavePipelineHandler() {
 // `wtf save <command> <description>`
 func VerifHarness_C08_SaveHandler() {
 	path := verifFSHome() + "/.config/cmd-finder/personal.yml"
-	fl := c08Flags(saveCmd, map[string]bool{"pipeline": true})
+	set := c08Flags(saveCmd, map[string]bool{"pipeline": true})
 	withCategory := verifBool("category")
 	if withCategory {
-		_ = fl.Set("category", "mine")
+		set("category", "mine")
 	}
 	pipeline := verifBool("pipeline")
 	if pipeline {
-		_ = fl.Set("pipeline", "true")
+		set("pipeline", "true")
 	}
-	_ = fl.Set("keywords", "k1,k2")
+	set("keywords", "k1,k2")
 	saveCmd.Run(saveCmd, []string{"tar -czf b.tgz d", "make a backup"})
 	db, err := database.LoadDatabase(path)
 	verifAssert(err == nil, "C08: the notebook loads after a successful save")
